@@ -290,17 +290,88 @@ def keyfn(label, e, idx):
     mode, kind = label.split("|")[:2]
     return "trace:%s:%s:%s" % (mode, kind, e.get("e"))
 
+# ------------------------------------------------------------------ (M) + non-vacuity of the contract
+MODEL_MUTANTS = [
+    # (name, old text, new text, invariants one of which must be violated)
+    ("failed close(target) ignored",
+     r'''     ELSE /\ success' = FALSE /\ exitStatus' = Err(exitStatus) /\ ioFailed' = Set(ioFailed, TRUE)
+          /\ pc' = "stat_dst" /\ UNCHANGED dstClosedOk''',
+     r'''     ELSE /\ UNCHANGED success /\ exitStatus' = Err(exitStatus) /\ ioFailed' = Set(ioFailed, TRUE)
+          /\ pc' = (IF success THEN "close_src" ELSE "stat_dst") /\ UNCHANGED dstClosedOk''',
+     ("DataSafe", "FailureKeepsSource")),
+    ("failed fsync(target) ignored",
+     r'''     ELSE /\ success' = FALSE /\ exitStatus' = Err(exitStatus) /\ ioFailed' = Set(ioFailed, TRUE)
+          /\ pc' = CdPoint(dstOpen, dirOpen, restoreOut) /\ UNCHANGED dstSynced''',
+     r'''     ELSE /\ UNCHANGED success /\ exitStatus' = Err(exitStatus) /\ ioFailed' = Set(ioFailed, TRUE)
+          /\ pc' = "fsync_dir" /\ UNCHANGED dstSynced''',
+     ("DataSafe", "FailureKeepsSource")),
+    ("source removed although the operation failed",
+     r'''pc' = IF success /\ ~KeepSrc THEN "stat_src" ELSE "unblock_done" ''',
+     r'''pc' = IF ~KeepSrc THEN "stat_src" ELSE "unblock_done" ''',
+     ("DataSafe",)),
+    ("source unlinked without the dev/ino comparison",
+     r'''  /\ IF r = "ok" /\ src[cur] = "present"
+     THEN pc' = "unlink_src" ''',
+     r'''  /\ IF r = "ok"
+     THEN pc' = "unlink_src" ''',
+     ("NoForeignLost",)),
+    ("junk target kept when the operation failed",
+     r'''          /\ pc' = IF success THEN "close_src" ELSE "stat_dst" ''',
+     r'''          /\ pc' = "close_src" ''',
+     ("NoJunkLeft", "FailureCleansUp")),
+    ("target opened without O_EXCL semantics",
+     r'''     THEN /\ dst[cur] = "absent"                 \* O_EXCL''',
+     r'''     THEN /\ TRUE                                \* O_EXCL''',
+     ("NoOverwrite",)),
+    ("--keep not honoured",
+     r'''KeepSrc  == cfg.keep \/ cfg.stdout''', r'''KeepSrc  == cfg.stdout''', ("KeepNeverRemoves", "DataSafe")),
+    ("exit status stays 0 after a failed write",
+     r'''       [] k = "err"   -> /\ ~full /\ Fault(k) /\ mustWrite' = FALSE /\ pc' = "closing"
+                         /\ exitStatus' = Err(exitStatus)''',
+     r'''       [] k = "err"   -> /\ ~full /\ Fault(k) /\ mustWrite' = FALSE /\ pc' = "closing"
+                         /\ UNCHANGED exitStatus''',
+     ("FailureIsReported", "ExitZeroMeansDone")),
+]
+
+def model_mutants(ctx):
+    """Every deliberately broken copy of the model must violate the contract (the invariants are not vacuous)."""
+    spec = os.path.join(HERE, "spec")
+    base = open(os.path.join(spec, "XzFilePair.tla")).read()
+    d = os.path.join(ctx.workdir, "modelmut")
+    os.makedirs(d, exist_ok=True)
+    shutil.copy(os.path.join(spec, "MCXzFilePair.tla"), d)
+    shutil.copy(os.path.join(spec, "MCXzFilePair.cfg"), d)
+    caught = 0
+    for name, old, new, invs in MODEL_MUTANTS:
+        old = old.rstrip(" "); new = new.rstrip(" ")
+        if base.count(old) != 1:
+            raise MachineryError("model mutant %r: anchor text not found exactly once" % name)
+        with open(os.path.join(d, "XzFilePair.tla"), "w") as f:
+            f.write(base.replace(old, new))
+        r = tlc.run("MCXzFilePair", cfg="MCXzFilePair.cfg", workers=4, timeout=300, cwd=d)
+        if r.error:
+            raise MachineryError("model mutant %r: %s" % (name, r.error))
+        if r.violation not in invs:
+            raise MachineryError("contract is vacuous: broken model %r violates %r, expected one of %r" %
+                                 (name, r.violation, invs))
+        caught += 1
+        ctx.log("broken model %-48s -> %s violated (as it must be)" % (name, r.violation))
+    ctx.extra["model_mutants_caught"] = "%d/%d" % (caught, len(MODEL_MUTANTS))
+
 def run(ctx):
-    # ---------------- (M)
-    if os.environ.get("C17_SKIP_M"):
-        return run_v(ctx)
-    r = tlc.run("MCXzFilePair", cfg="MCXzFilePair.cfg" if ctx.quick else "MCXzFilePairFull.cfg",
-                workers=4, timeout=240 if ctx.quick else 1200, coverage=False)
-    ctx.add_tlc("MCXzFilePair(%s)" % ("1 fault,1 signal,single flags" if ctx.quick else "2 faults,all flag combos"),
-                r, exhaustive=True)
-    if r.violation:
-        ctx.violation("model:" + r.violation, r.out[-4000:], dict(kind="tlc_counterexample"))
-    ctx.log("MCXzFilePair:", r.summary())
+    if not os.environ.get("C17_SKIP_M"):
+        runs = [("MCXzFilePair.cfg", "1 fault, 1 signal, single flags", 300)] if ctx.quick else \
+               [("MCXzFilePairFull.cfg", "1 fault, 1 signal, all flag combinations", 1500),
+                ("MCXzFilePair2F.cfg", "2 faults, 1 signal, one file", 600)]
+        for cfg, what, to in runs:
+            r = tlc.run("MCXzFilePair", cfg=cfg, workers=4 if ctx.quick else 8, timeout=to,
+                        coverage=(cfg == "MCXzFilePair2F.cfg"))
+            ctx.add_tlc("MCXzFilePair(%s)" % what, r, exhaustive=True)
+            if r.violation:
+                ctx.violation("model:" + r.violation, r.out[-4000:], dict(kind="tlc_counterexample", cfg=cfg))
+            ctx.log("MCXzFilePair(%s):" % what, r.summary())
+        if not ctx.quick or os.environ.get("C17_MODEL_MUTANTS"):
+            model_mutants(ctx)
     return run_v(ctx)
 
 def run_v(ctx):
